@@ -9,6 +9,7 @@ CONSTANTS
   MaxDup = 0
   MaxDisp = 0
   MaxSwap = 0
+  MaxPerturb = 0
   MaxCuts = 0
   MinCuts = 0
   MaxAck = 0
